@@ -67,7 +67,7 @@ def main(tier):
     mc = storemodel.check(rep, tier, PROP)
     if rep.machinery_errors:
         return rep.finish()
-    nbase = 4 if tier == "quick" else 16
+    nbase = 4 if tier == "quick" else 6
     seeds = [rng.randrange(1 << 30) for _ in range(nbase)]
     base = [scenario(random.Random(s), k, git=(k % 2 == 1), dirty=("staged" if k % 8 == 7 else (k % 4 == 3))) for k, s in enumerate(seeds)]
     hists, traces, verdicts, tr, other, nontriv = F.run_and_judge(rep, base, CLAUSES, sig_fn=sig)
